@@ -194,8 +194,11 @@ def replay(rep, data, pa):
     ua_exact = [Fraction(s, I.scale) / I.c2n for s in sums]
     al_exact = sum(ua_exact, Fraction(0)) / avg
     ok = close(al.compute_disorder(dissim), al_exact, TAU2)
-    for ua, e in zip(uas, ua_exact):
+    for ua, e, r in zip(uas, ua_exact, reals):
         v = ua.compute_disorder(dissim)
+        if not close(v, e, TAU2) and r < I.n and close(v, e * I.n / r, TAU2):
+            print("  unitary: library %r = definition %r x n/k (the known finding UnitaryAlignment.compute_disorder:empty-slot, not counted)" % (float(v), float(e)))
+            continue
         print("  unitary: library %r definition %r" % (float(v), float(e)))
         ok = ok and close(v, e, TAU2)
     return ok
